@@ -487,6 +487,12 @@ func (db *DB) SetReadOnly() error {
 	case perr := <-db.compPerErrC:
 		return perr
 	case <-db.closeC:
+		// Nobody will release the write lock on our behalf if the compaction
+		// error goroutine is already gone, and Close waits for it.
+		select {
+		case <-db.writeLockC:
+		default:
+		}
 		return ErrClosed
 	}
 
